@@ -81,7 +81,11 @@ func (b *builder) node(depth int) (string, []exp, []rcell) {
 		var sb strings.Builder
 		var es []exp
 		for i := 0; i < n; i++ {
-			switch x := b.r.Intn(12); {
+			switch x := b.r.Intn(14); {
+			case x == 12:
+				sb.WriteRune([]rune{'\u00a0', '\u3000', '\u2003'}[b.r.Intn(3)]) // blanks other than the ASCII space
+			case x == 13:
+				sb.WriteString("  ")
 			case x == 0:
 				sb.WriteByte(' ')
 			case x == 1 && depth > 0:
@@ -283,6 +287,21 @@ func compareCells(out string, want []rcell) (string, string) {
 	return "", ""
 }
 
+// subsequence: every cell of out appears, unchanged and in order, in in
+func subsequence(out, in []term.Cell) string {
+	j := 0
+	for i, c := range out {
+		for j < len(in) && !(in[j].R == c.R && in[j].A.Equal(c.A)) {
+			j++
+		}
+		if j == len(in) {
+			return fmt.Sprintf("character %d of the result, %q shown as [%s], is not among the remaining characters of the input with these attributes", i, c.R, c.A)
+		}
+		j++
+	}
+	return ""
+}
+
 func contentCells(sc *term.Scan) []term.Cell {
 	var out []term.Cell
 	for _, c := range sc.Flat() {
@@ -321,6 +340,13 @@ func compare(got []term.Cell, want []exp, prefixOK bool) (string, string) {
 		}
 		if len(w.bgs) == 0 && g.A.Bg != "" || len(w.bgs) > 0 && !in(w.bgs, g.A.Bg) {
 			return "style:bg", fmt.Sprintf("character %d %q has background %q, expected one of %v", i, g.R, g.A.Bg, w.bgs)
+		}
+		// two colours of one plane cannot both be shown: the one applied closest to the character (the innermost call) is the one displayed
+		if len(w.fgs) > 1 && g.A.Fg != w.fgs[0] {
+			return "style:fg-precedence", fmt.Sprintf("character %d %q is wrapped in foreground colours %v (innermost first) and is shown with %q", i, g.R, w.fgs, g.A.Fg)
+		}
+		if len(w.bgs) > 1 && g.A.Bg != w.bgs[0] {
+			return "style:bg-precedence", fmt.Sprintf("character %d %q is wrapped in background colours %v (innermost first) and is shown with %q", i, g.R, w.bgs, g.A.Bg)
 		}
 		if len(g.A.Other) > 0 {
 			return "style:foreign-attribute", fmt.Sprintf("character %d %q carries SGR codes %v nobody applied", i, g.R, g.A.Other)
@@ -492,6 +518,13 @@ func one(c *ev.Ctx, r *rand.Rand, fns []styleFn, sample bool) {
 		if sig, d := leak(sc); sig != "" {
 			fail(sig, d, out)
 			return
+		}
+		if last := ops[len(ops)-1]; strings.HasPrefix(last, "Wrap(") || strings.HasPrefix(last, "DumbWrap(") {
+			// wrapping only drops blanks and inserts line breaks: whatever survives (blanks included) is displayed exactly as before
+			if d := subsequence(term.ParseKeep(out).Flat(), term.ParseKeep(s).Flat()); d != "" {
+				fail("style:layout-changed-a-cell", last+": "+d, out)
+				return
+			}
 		}
 		got := contentCells(sc)
 		if sig, d := compare(got, want, prefixOK); sig != "" {
